@@ -354,6 +354,16 @@ func (s *Store[H]) DeleteRange(ctx context.Context, from, to uint64) error {
 		)
 	}
 
+	if updateHead && !updateTail {
+		// Recede the head below the range before deleting anything: deletion is not atomic and
+		// if it gets interrupted in the middle (crash, write failure), the chain must not be
+		// left with a gap below the head or with the head pointing to a deleted header.
+		newHeadHeight := from - 1
+		if err := s.setHead(ctx, s.ds, newHeadHeight); err != nil {
+			return fmt.Errorf("header/store: setting head to %d: %w", newHeadHeight, err)
+		}
+	}
+
 	// Delete the headers without automatic tail updates
 	actualTo, _, deleteErr := s.deleteRangeRaw(ctx, from, to)
 
@@ -369,21 +379,10 @@ func (s *Store[H]) DeleteRange(ctx context.Context, from, to uint64) error {
 		}
 	}
 
-	if updateHead && !updateTail {
-		// This means we only receded the head, only update head if we made progress
-		// `actualTo` represents the height we receded backwards to as deletion
-		// moves in ascending order from --> to, so if we made any progress deleting headers
-		// `from` --> `actualTo`, we must always update the head to be one below `from` (which was deleted)
-		// to preserve contiguity (regardless of whether a partial delete occurred)
-		if actualTo > from {
-			newHeadHeight := from - 1
-			if err := s.setHead(ctx, s.ds, newHeadHeight); err != nil {
-				return errors.Join(
-					deleteErr,
-					fmt.Errorf("header/store: setting head to %d: %w", newHeadHeight, err),
-				)
-			}
-		}
+	if updateHead && !updateTail && deleteErr != nil {
+		// The head is already receded to one below `from`. Deletion moves in ascending order, so
+		// if the header at `from` (and others right above it) survived, get them back under the head.
+		s.advanceHead(ctx)
 	}
 
 	if deleteErr != nil {
